@@ -318,6 +318,10 @@ def run_case(c, case):
         if "MULTIPLE" in s or "NO_" in s:
             c.inconc("model-not-determinate")
             return
+        from ..oracles import linre as _linre
+        if not _linre.square_solution_consistent(m.get_solution().T, m.get_eigenvalues()):
+            c.inconc("model-determinate-by-count-only(rank condition fails)")
+            return
         T = case["T"]
         start = ir.qq(2020, 1)
         end = start + (T - 1)
